@@ -40,8 +40,34 @@ fn forms_inner(c: &Case, db2: &DbDef) -> (String, String, String, String) {
         format!("CREATE VIEW v AS {}", body_sql)
     };
     let cte = format!("WITH v AS ({}) {}", body_sql, outer_sql);
-    let derived = outer_sql.replacen(" FROM v", &format!(" FROM ({}) AS v", body_sql), 1);
+    let derived = replace_table_token(&outer_sql, "v", &format!("({}) AS v", body_sql));
     (create, outer_sql, cte, derived)
+}
+
+/// replaces the table reference `name` (a whole word not followed by '.') by `with`
+fn replace_table_token(sql: &str, name: &str, with: &str) -> String {
+    let b = sql.as_bytes();
+    let mut out = String::new();
+    let mut i = 0;
+    let mut in_str = false;
+    while i < b.len() {
+        if b[i] == b'\'' {
+            in_str = !in_str;
+        }
+        let word_start = i == 0 || !(b[i - 1].is_ascii_alphanumeric() || b[i - 1] == b'_' || b[i - 1] == b'.');
+        if !in_str && word_start && sql[i..].starts_with(name) {
+            let j = i + name.len();
+            let word_end = j >= b.len() || !(b[j].is_ascii_alphanumeric() || b[j] == b'_' || b[j] == b'.');
+            if word_end {
+                out.push_str(with);
+                i = j;
+                continue;
+            }
+        }
+        out.push(b[i] as char);
+        i += 1;
+    }
+    out
 }
 
 fn with_v(c: &Case) -> DbDef {
@@ -183,6 +209,30 @@ fn run_case(c: &mut Case, r: &mut Rng, model: &mut model::Model, rep: &mut Repor
         }
     }
     check_round(c, &mut db, model, rep, "after_dml", &script);
+    if r.chance(1, 3) {
+        // empty every table the definition reads (the view becomes empty), look again, refill, look again
+        for t in ts.iter() {
+            let name = c.dbd.tables[*t].schema.table.clone();
+            let sql = format!("DELETE FROM {}", name);
+            if c.dbd.tables[*t].rows.is_empty() {
+                continue;
+            }
+            db.must(&sql);
+            script.push_str(&format!("{};\n", sql));
+            c.dbd.tables[*t].rows.clear();
+        }
+        rep.count("dml_emptied");
+        check_round(c, &mut db, model, rep, "emptied", &script);
+        let schema = c.dbd.tables[t].schema.clone();
+        for row in gen_rows(r, &schema, 3) {
+            let items: Vec<String> = row.iter().map(|v| v.sql()).collect();
+            let sql = format!("INSERT INTO {} SELECT {}", schema.table, items.join(", "));
+            db.must(&sql);
+            script.push_str(&format!("{};\n", sql));
+            c.dbd.tables[t].rows.push(row);
+        }
+        check_round(c, &mut db, model, rep, "refilled", &script);
+    }
 }
 
 /// deterministic probes (minimised past failure, fixed b16cfa2c): wildcard definitions in the
@@ -245,7 +295,34 @@ fn main() {
         }
         let mut c = Case { dbd: dbd.clone(), body, star, unq: r.chance(1, 4), outer: Core { from: From::Table(3), where_: None, group: None, select: vec![], distinct: false, order_by: vec![], limit: None, offset: 0 }, with_cols: star.is_none() && r.chance(1, 3) };
         let db2 = with_v(&c);
-        let og = QGen { db: &db2, subqueries: false, force_from: Some(From::Table(3)) };
+        let mut outer_from = From::Table(3);
+        if r.chance(1, 3) {
+            // the view joined with a base table (either side, every join type)
+            let t = r.below(3) as usize;
+            let (lw, l, rr) = if r.chance(1, 2) { (db2.tables[t].schema.cols.len(), From::Table(t), From::Table(3)) } else { (db2.tables[3].schema.cols.len(), From::Table(3), From::Table(t)) };
+            let cross = From::Cross(Box::new(l.clone()), Box::new(rr.clone()));
+            let tys = cross.tys(&db2);
+            let li: Vec<usize> = (0..lw).filter(|i| tys[*i] == Ty::Int).collect();
+            let ri: Vec<usize> = (lw..tys.len()).filter(|i| tys[*i] == Ty::Int).collect();
+            let on = if !li.is_empty() && !ri.is_empty() {
+                E::Bin(Op::Eq, Box::new(E::Col(*r.pick(&li))), Box::new(E::Col(*r.pick(&ri))))
+            } else {
+                E::Bin(Op::Eq, Box::new(E::Lit(Lit::I(1))), Box::new(E::Lit(Lit::I(1))))
+            };
+            outer_from = match r.below(5) {
+                0 => cross,
+                1 => From::Inner(Box::new(l), Box::new(rr), on),
+                2 => From::Left(Box::new(l), Box::new(rr), on),
+                3 => From::Right(Box::new(l), Box::new(rr), on),
+                _ => From::Full(Box::new(l), Box::new(rr), on),
+            };
+            rep.count("outer_joins_view_with_base_table");
+            if c.star.is_some() {
+                // a wildcard view keeps the base column names: unqualified references would be ambiguous
+                c.unq = false;
+            }
+        }
+        let og = QGen { db: &db2, subqueries: false, force_from: Some(outer_from) };
         c.outer = og.gen_core(&mut r, true);
         if i < 4 {
             let (create, vq, _, _) = forms(&c, &db2);
